@@ -215,4 +215,71 @@ def subproof (cl : List Tm) (ps : List Seq) : Except Err Seq :=
       else .error .verit
     | _, _ => .error .verit
 
+-- ------------------------------------------------------------------ cong (compare_sym_tm with depth 1)
+
+def isVarTm : Tm → Bool
+  | .var _ => true
+  | _ => false
+
+/-- `(t1, t2) in ctx or (t2, t1) in ctx` -/
+def inCtx (ctx : List (Tm × Tm)) (a b : Tm) : Bool := ctx.contains (a, b) || ctx.contains (b, a)
+
+/-- `helper(a, b, 0)`: identified by the context, or the same term -/
+def h0 (ctx : List (Tm × Tm)) (a b : Tm) : Bool := inCtx ctx a b || a == b
+
+/-- the `while cur1.is_conj() and cur2.is_conj() and helper(cur1.arg1, cur2.arg1, 0)` loop;
+`prog` = the loop has advanced at least once -/
+def conjLoop (ctx : List (Tm × Tm)) : Tm → Tm → Bool → Bool
+  | mkAnd a1 b1, t2, prog =>
+    match t2 with
+    | mkAnd a2 b2 =>
+      if h0 ctx a1 a2 then (if ctx.contains (b1, b2) then true else conjLoop ctx b1 b2 true)
+      else (if prog then h0 ctx (mkAnd a1 b1) t2 else false)
+    | _ => if prog then h0 ctx (mkAnd a1 b1) t2 else false
+  | t1, t2, prog => if prog then h0 ctx t1 t2 else false
+
+def disjLoop (ctx : List (Tm × Tm)) : Tm → Tm → Bool → Bool
+  | mkOr a1 b1, t2, prog =>
+    match t2 with
+    | mkOr a2 b2 =>
+      if h0 ctx a1 a2 then (if ctx.contains (b1, b2) then true else disjLoop ctx b1 b2 true)
+      else (if prog then h0 ctx (mkOr a1 b1) t2 else false)
+    | _ => if prog then h0 ctx (mkOr a1 b1) t2 else false
+  | t1, t2, prog => if prog then h0 ctx t1 t2 else false
+
+/-- `all(helper(l, r, 0) for l, r in zip(t1.args, t2.args))` -/
+def zipAll (ctx : List (Tm × Tm)) : List Tm → List Tm → Bool
+  | a :: as, b :: bs => h0 ctx a b && zipAll ctx as bs
+  | _, _ => true
+
+/-- `compare_sym_tm(t1, t2, ctx=ctx, depth=1)` for terms without binders whose heads are not
+`plus`, `let` or `distinct` (other instances are not given to the model) -/
+def cmpSym1 (ctx : List (Tm × Tm)) (t1 t2 : Tm) : Bool :=
+  if inCtx ctx t1 t2 then true
+  else if isVarTm t1 || isVarTm t2 then t1 == t2
+  else if isComb t1 then
+    if !(isComb t2 && head t1 == head t2) then false
+    else match destEq t1, destEq t2 with
+      | some (_, l1, r1), some (_, l2, r2) =>
+        (h0 ctx l1 l2 && h0 ctx r1 r2) || (h0 ctx r1 l2 && h0 ctx l1 r2)
+      | some _, none => false                         -- same head: cannot happen
+      | none, _ =>
+        match t1 with
+        | mkAnd _ _ => conjLoop ctx t1 t2 false
+        | mkOr _ _ => disjLoop ctx t1 t2 false
+        | _ => zipAll ctx (args t1) (args t2)
+  else t1 == t2
+
+/-- verit_cong (as fixed by C18-14) -/
+def congRule (cl : List Tm) (ps : List Seq) : Except Err Seq :=
+  match goalEq cl with
+  | none => .error .verit
+  | some (g, lhs, rhs) =>
+    if head lhs != head rhs then .error .verit else
+    match destEqs (ps.map (·.prop)) with
+    | none => .error .verit
+    | some es =>
+      let ctx := es.flatMap (fun e => [(e.2.1, e.2.2), (e.2.2, e.2.1)])
+      if cmpSym1 ctx lhs rhs then .ok ⟨unionHyps ps, g⟩ else .error .verit
+
 end Holpy.C18
